@@ -29,8 +29,11 @@ def write_replay(pid, key, what, witness, tier):
 
 
 def write_evidence(chk, tier, seed, acc: Acc, wall, nviol, extra=None):
+    # a case may enumerate many executions internally (histories, prefixes, schedules): report executions of the real code
+    evaluations = max([acc.evaluations, len(acc.nontrivial), acc.traces] + [v for k, v in acc.counters.items() if k in ('executions', 'histories', 'operations', 'prefixes')])
     cov = {
-        'evaluations': acc.evaluations,
+        'evaluations': evaluations,
+        'cases': acc.evaluations,
         'distinct_nontrivial': len(acc.nontrivial),
         'rule': chk.RULE,
         'samples': acc.samples[:6] or ['<none>'],
